@@ -390,6 +390,11 @@ def check(ctx):
     ctx.check(ok, "C19.R5", mf.qualname, mf.node.body[0], "merge_fields does not order fields with sort_by_order(cls, fields, name, ordering)", mf, mf.node, detail="sort_by_order(cls, fields, f.name, f.ordering)")
 
 
+    # ---------------- helpers applied to raw annotations look through Annotated
+    ctx.rule("C19.R20", "is_union_of (nullability of GraphQL arguments, Undefined / None omission of fields and serialized methods) looks through Annotated[...]: raw field / parameter / return annotations reach it", floor=5)
+    from .common_annotated import annotated_transparency_rule
+    annotated_transparency_rule(ctx, "C19.R20")
+
 def sentinel_test(t):
     """(subject, {sentinels}) for `x in {a, b}` / `x in (a, b)` / `x is a or x is b` / `x == a or x == b`, else (None, None)"""
     if isinstance(t, ast.Compare) and len(t.ops) == 1 and isinstance(t.ops[0], ast.In) and isinstance(t.comparators[0], (ast.Set, ast.Tuple, ast.List)):
@@ -415,6 +420,7 @@ def _assigns_optional(st) -> bool:
 
 
 def mutants(mb):
+    mb.add_text("is-union-of-not-annotated-transparent", "apischema/utils.py", "    return tp == of or (is_union(get_origin_or_type2(tp)) and of in get_args2(tp))\n", "    return tp == of or (is_union(get_origin_or_type(tp)) and of in get_args(tp))\n", "C19.R20", "is_union_of")
     mb.add_text("id-literal-not-decoded", "apischema/graphql/schema.py", "            parse_literal=parse_id_literal,\n", "            parse_literal=graphql.GraphQLID.parse_literal,\n", "C19.R17", "parse_literal")
     mb.add_text("interfaces-direct-bases", "apischema/graphql/interfaces.py", "cls.__mro__[1:]", "cls.__bases__", "C19.R16", "ancestry")
     mb.add_text("neg-interfaces-comprehension", "apischema/graphql/interfaces.py", "    return list(filter(is_interface, cls.__mro__[1:]))\n", "    return [base for base in cls.__mro__ if base is not cls and is_interface(base)]\n", negative=True)
